@@ -362,6 +362,10 @@ Definition m_map2 : bytes := Eval vm_compute in bs "invalid-List.map2".
 Definition m_kind : bytes := Eval vm_compute in bs "unknown-case-kind".
 Definition m_uncaught : bytes := Eval vm_compute in bs "uncaught-panic".
 
+Definition s_sbcov : bytes := Eval vm_compute in bs "sbcov".
+Definition s_getmap : bytes := Eval vm_compute in bs "getmap".
+Definition s_smap : bytes := Eval vm_compute in bs "smap".
+
 End Atoms.
 Export Atoms.
 
@@ -705,6 +709,45 @@ Definition run_bcov (args : list sexp) : err sexp :=
                 odo d <- ok (bcov_new s b); odo sp <- ok (sbcov_new s b);
                 odo ops <- tagged s_ops ops;
                 bcov_ops s b d sp ops)
+  | _ => Bad m_args
+  end.
+
+(* sbcov: the sparse binned counter alone (region lists whose total number of bins no dense vector could hold):
+   the map itself is emitted, as (flat index, count) pairs in model order (the comparison sorts them) *)
+Fixpoint sbcov_ops (s : iset) (b : N) (sp : sbcov) (ops : list sexp) : outs :=
+  match ops with
+  | [] => ODone
+  | SL (SA h :: args) :: t =>
+    match args with
+    | [] =>
+      if is_ s_reset h then odo sp' <- ok (sbcov_step s b (Ok sp) BReset); sbcov_ops s b sp' t
+      else if is_ s_getmap h then
+        OEmit (SL [SA s_smap; az (sb_total sp); an (sb_len sp); SL (map (fun kv => SL [an (fst kv); az (snd kv)]) (sb_map sp))])
+          (sbcov_ops s b sp t)
+      else OBad m_op
+    | [i] =>
+      if is_ s_getregion h then
+        odo i <- num i; odo r <- ok (sb_get_region sp s b i); OEmit (sx_opt sx_region r) (sbcov_ops s b sp t)
+      else if is_ s_getchrom h then
+        odo i <- num i; odo r <- ok (sb_get_chrom sp s b i); OEmit (sx_opt sx_chr r) (sbcov_ops s b sp t)
+      else OBad m_op
+    | [c; x; y; k] =>
+      if is_ s_ins h then
+        odo q <- qry c x y; odo k <- znum k;
+        odo sp' <- ok (sbcov_step s b (Ok sp) (BInsert (fst (fst q)) (snd (fst q)) (snd q) k)); sbcov_ops s b sp' t
+      else OBad m_op
+    | _ => OBad m_op
+    end
+  | _ :: _ => OBad m_op
+  end.
+Definition run_sbcov (args : list sexp) : err sexp :=
+  match args with
+  | [b; regs; ops] =>
+    with_panic (odo b <- num b; odo l <- tagged s_regs regs; odo rs <- emap region_of l;
+                let s := iset_new rs in
+                odo sp <- ok (sbcov_new s b);
+                odo ops <- tagged s_ops ops;
+                sbcov_ops s b sp ops)
   | _ => Bad m_args
   end.
 
@@ -1214,6 +1257,7 @@ Definition run_case_err (x : sexp) : err sexp :=
     else if is_ s_imap k then run_imap args
     else if is_ s_cov k then run_cov args
     else if is_ s_bcov k then run_bcov args
+    else if is_ s_sbcov k then run_sbcov args
     else if is_ s_alg k then run_alg args
     else if is_ s_split k then run_split args
     else if is_ s_merge k then run_merge args
